@@ -822,7 +822,7 @@ def run(ctx):
     ctx.sweep(match_case, match_cases(KIND_TOKENS, (1, 2, 3)), chunk=8, name="matching: token sequences 1-3")
     if not ctx.quick:
         ctx.sweep(match_case, match_cases(KIND_TOKENS_4, (4,)), chunk=4, name="matching: token sequences 4 (reduced)")
-    outs = set(ctx.outcomes)
+    outs = set(x for x in ctx.outcomes if isinstance(x, tuple) and len(x) == 4)     # other outcome shapes exist
     # vacuity guards on what the ORACLE classified (so that a defect turns into a VIOLATION, not a harness error)
     kinds_inst = set(k for (k, var, oc, o) in outs if var == "instance" and oc.startswith("instance"))
     ctx.guard(kinds_inst == set(KIND_TOKENS), "every matcher kind was given instances (%s)" % sorted(kinds_inst))
